@@ -35,8 +35,12 @@ FORMS = [
     ("only_rename", "use a, only: lt => t, s", True, [("lt", "t"), ("s", "s")]),
     ("two_uses", "use a, only: t\n  use a, only: s", True, [("t", "t"), ("s", "s")]),
     ("only_hidden", "use a, only: t, hid", True, [("t", "t")]),
+    ("only_empty", "use a, only:", True, []),
+    ("only_empty_blank", "use a, only :  ", True, []),
 ]
-UNIVERSE = ["t", "s", "v", "hid", "lt", "ls", "lv"]
+# the one known finding of this family: two local names for one remote entity (used_names is keyed by the remote name)
+KNOWN_FORM = ("two_locals", "use a, only: p => t, q => t", True, [("p", "t"), ("q", "t")])
+UNIVERSE = ["t", "s", "v", "hid", "lt", "ls", "lv", "p", "q"]
 
 
 def imported(only, items):
@@ -55,10 +59,11 @@ def imported(only, items):
     return out
 
 
-def b_text(use_txt, default, publist):
+def b_text(use_txt, default, publist, privlist=()):
     acc = f"  {default}\n" if default else ""
     pub = f"  public :: {', '.join(publist)}\n" if publist else ""
-    return f"module b\n  {use_txt}\n  implicit none\n{acc}{pub}  integer :: own\nend module b\n"
+    prv = f"  private :: {', '.join(privlist)}\n" if privlist else ""
+    return f"module b\n  {use_txt}\n  implicit none\n{acc}{pub}{prv}  integer :: own\nend module b\n"
 
 
 C_TEXT = "module c\n  use b\n  implicit none\nend module c\n"
@@ -68,20 +73,23 @@ def cases():
     for (label, use_txt, only, items), default in itertools.product(FORMS, ["", "private"]):
         imp = imported(only, items)
         for publist in ([], sorted(imp)[:1]):
-            yield label, use_txt, only, items, default, publist
+            yield label, use_txt, only, items, default, publist, []
+        if not default and imp:
+            # an access statement naming a use-associated entity: it is not re-exported
+            yield label, use_txt, only, items, default, [], sorted(imp)[-1:]
 
 
 def table_keys(mod):
     return {"type": set(mod.all_types), "proc": set(mod.all_procs), "var": set(mod.all_vars)}
 
 
-def check(proj, only, items, default, publist):
+def check(proj, only, items, default, publist, privlist=()):
     mods = {m.name.lower(): m for m in proj.modules}
     a, b, c = mods["a"], mods["b"], mods["c"]
     imp = imported(only, items)
     bad = []
     objs = {"t": a.types[0] if a.types and a.types[0].name == "t" else None, "s": a.all_procs.get("s"), "v": a.all_vars.get("v")}
-    for scope, vis in (("b", imp), ("c", {l: r for l, r in imp.items() if default != "private" or l in publist})):
+    for scope, vis in (("b", imp), ("c", {l: r for l, r in imp.items() if (default != "private" or l in publist) and l not in privlist})):
         m = mods[scope]
         keys = table_keys(m)
         for n in UNIVERSE:
@@ -130,17 +138,27 @@ def search():
     if bad:
         return {"confirmed": True, "input": {"files": DEEP}, "actual": bad, "expected": "USE association through a re-exporting module, wherever the USE statement is nested",
                 "how": "bounded search on the real pipeline: module chain z_base <- m_mid <- a_top::outer::inner"}
-    for label, use_txt, only, items, default, publist in cases():
-        files = {"src/a.f90": A_TEXT, "src/b.f90": b_text(use_txt, default, publist), "src/c.f90": C_TEXT}
+    for label, use_txt, only, items, default, publist, privlist in cases():
+        files = {"src/a.f90": A_TEXT, "src/b.f90": b_text(use_txt, default, publist, privlist), "src/c.f90": C_TEXT}
         try:
             proj = realrun.build_project(files, display=["public", "private", "protected"])
         except Exception as e:
             return {"confirmed": True, "input": {"files": files}, "actual": f"{type(e).__name__}: {e}", "expected": "no failure", "how": f"case {label}"}
-        bad = check(proj, only, items, default, publist)
+        bad = check(proj, only, items, default, publist, privlist)
         if bad:
             return {"confirmed": True, "input": {"files": files}, "actual": bad[:4],
                     "expected": "names visible in b and (re-exported) in c per the standard's USE rules",
-                    "how": f"bounded search on the real pipeline, USE form '{label}', b default '{default or 'public'}', public list {publist}"}
+                    "how": f"bounded search on the real pipeline, USE form '{label}', b default '{default or 'public'}', public list {publist}, private list {privlist}"}
+    return None
+
+
+def known_case():
+    label, use_txt, only, items = KNOWN_FORM
+    files = {"src/a.f90": A_TEXT, "src/b.f90": b_text(use_txt, "", []), "src/c.f90": C_TEXT}
+    proj = realrun.build_project(files, display=["public", "private", "protected"])
+    bad = check(proj, only, items, "", [])
+    if bad:
+        return {"confirmed": True, "input": {"files": files}, "actual": bad[:4], "expected": "both local names p and q denote a's t", "how": "real pipeline, USE form 'two_locals'"}
     return None
 
 
